@@ -291,7 +291,7 @@ where
         }
     }
     // long single runs
-    for w in if ctx.tier.thorough() { vec![0usize, 1, 2, 10, 50, 200, 2000] } else { vec![0, 1, 10, 100] } {
+    for w in if ctx.tier.thorough() { vec![0usize, 1, 2, 10, 50, 200, 600, 2000] } else { vec![0, 1, 10, 100, 600] } {
         hists.push(vec![(20, w)]);
         hists.push(vec![(5, w), (5, w / 2), (3, w + 30)]);
     }
@@ -307,6 +307,10 @@ where
                 for h in hists.iter() {
                     // NaN-region targets: single runs and the long warm-ups only in the quick tier
                     if ti >= 3 && !ctx.tier.thorough() && h.len() == 2 {
+                        continue;
+                    }
+                    // quick tier: the 600-transition warm-ups only where an adaptation runaway would show (NaN-region targets)
+                    if !ctx.tier.thorough() && ti < 3 && h.iter().any(|r| r.1 >= 600) {
                         continue;
                     }
                     cfgs.push(Cfg { target: ti, delta, seed, runs: h.clone() });
